@@ -319,7 +319,9 @@ def _step_instances(tier):
         for nc in '0AB':
             for dc in '0AB':
                 for follow in ('end', 'next', '4', '11'):
-                    for base in ((0,) if tier == 'quick' else (0, 8)):
+                    # the extent may start at any file offset: padding is relative to the extent start, not to the file (quick: the
+                    # residues mod 4 rotate over the instances; thorough: every residue for every instance)
+                    for base in ((len(out) % 4,) if tier == 'quick' else (0, 1, 2, 3, 8)):
                         out.append(dict(little=little, elfclass=cls, core=core, name=nc, desc=dc, follow=follow, base=base, via='func'))
     return out
 
@@ -338,6 +340,9 @@ def _seq_instances(tier):
                     if tier == 'quick' and (little, cls) == (False, 32) and via != 'func':
                         continue
                     out.append(dict(little=little, elfclass=cls, core=False, notes=notes, via=via, label=label, trail=trail, base=4 if via != 'segment' else 0))
+                    if label in ('residues-2', 'gnu-like') and trail == 0:
+                        for base in (1, 2, 3):      # extents at file offsets that are not multiples of 4
+                            out.append(dict(little=little, elfclass=cls, core=False, notes=notes, via=via, label=label + '@%d' % base, trail=0, base=base))
     return out
 
 
